@@ -489,8 +489,33 @@ func c02DispatchTable(p *Prog, fi *FuncInfo, readers ...string) ([]dispatchRow, 
 				return nil, false
 			}
 			f.WalkExprStmts = true
-			_, _, err := f.WalkPath(env)
+			_, exit, err := f.WalkPath(env)
 			f.WalkExprStmts = false
+			if err == nil {
+				// a read written inside the return statement (return u.mergeFiles(u.readAll(&u.allStore, nil), nil), nil):
+				// the results are evaluated for their reads
+				if rs := f.returnStmt(exit); rs != nil {
+					for _, res := range rs.Results {
+						hasReader := false
+						ast.Inspect(res, func(y ast.Node) bool {
+							if c, ok := y.(*ast.CallExpr); ok && len(readers) > 0 && p.callIs(fi.Pkg, c, readers...) {
+								hasReader = true
+							}
+							return !hasReader
+						})
+						if !hasReader {
+							continue
+						}
+						ast.Inspect(res, func(y ast.Node) bool {
+							if c, ok := y.(*ast.CallExpr); ok && p.callIs(fi.Pkg, c, readers...) {
+								env.Eval(c) //nolint:errcheck // evaluated for the hook's record
+								return false
+							}
+							return true
+						})
+					}
+				}
+			}
 			if err != nil {
 				// accepted when the walk stopped after the dispatch: no reader call is reachable from the stop node
 				stop := f.WalkStop
